@@ -517,6 +517,7 @@ package state
 //@ func getNodeIDTxn
 //@ trusted
 //@ results n, nerr
+//@ modifies nothing
 
 //@ func Store.txnNode
 //@ props C05 C10
@@ -545,10 +546,12 @@ package state
 
 //@ file memdb.go
 
-// usage accounting reads the change set (reflection on row types): ASSUMED to touch no modelled table
+// usage accounting reads the change set (reflection on row types): ASSUMED frame - it writes only the usage table,
+// which no contract here reads
 //@ func updateUsage
 //@ trusted
 //@ results uerr
+//@ modifies nothing
 
 // The commit of a write transaction: nothing is committed (and nothing published) when usage accounting or event
 // generation fails; otherwise the memdb transaction is committed exactly once, before the events are published.
@@ -659,12 +662,17 @@ package state
 //@ loop 1 invariant[only-this-check-removed] forall k string :: (old(T_checks(k)) == nil || old(T_checks(k)) != old(checkAt(node, string(checkID), peerName))) ==> checkIdentityKept(k)
 //@ loop 1 invariant[nothing-created] forall k string :: old(T_checks(k)) == nil ==> T_checks(k) == nil
 //@ loop 1 invariant[removed-or-kept] forall k string :: T_checks(k) == nil || checkIdentityKept(k)
+// node registration and removal are NOT under contract (node renames, similar-name checks, coordinates and the
+// service/check cascades of deleteNodeTxn use indexes outside the table model). ASSUMED frames only: which tables
+// they may write. No claim about what they write.
 //@ func Store.ensureNodeTxn
 //@ trusted
 //@ results rerr
+//@ modifies T.nodes, T.index, node.RaftIndex
 //@ func Store.deleteNodeTxn
 //@ trusted
 //@ results rerr
+//@ modifies T.nodes, T.services, T.checks, T.index, T.sessions, T.kvs, T.tombstones, T.session_checks, T.prepared-queries, map:s.lockDelay.delay
 // ---- C07: the derived views (mesh topology, gateway links, kind-service-names, virtual IPs) are NOT under contract.
 // Their maintenance functions are used through ASSUMED frames: they touch only their own derived tables and the
 // index table, never the nodes, services, checks or session tables (listed under trusted_contracts in the evidence).
@@ -713,9 +721,11 @@ package state
 //@ loop 2 invariant[listed-belong] forall j int :: 0 <= j && j < len(deleteChecks) ==> checkOfService(deleteChecks[j], nodeName, serviceID, peerName)
 //@ loop 2 invariant[only-its-checks-removed] forall k string :: checkIdentityKept(k) || (T_checks(k) == nil && old(checkOfService(T_checks(k), nodeName, serviceID, peerName)))
 //@ loop 2 invariant[rest-untouched] (forall k string :: T_nodes(k) == old(T_nodes(k))) && (forall k string :: T_services(k) == old(T_services(k))) && (forall id string :: old(T_sessions(id)) == nil ==> T_sessions(id) == nil)
+// service registration is NOT under contract (gateway links, mesh topology, virtual IPs). ASSUMED frame only.
 //@ func ensureServiceTxn
 //@ trusted
 //@ results rerr
+//@ modifies T.services, T.index, svc.TaggedAddresses
 
 //@ pure checkAt(node string, id string, peer string) *structs.HealthCheck = T_checks(NodeCheckQuery{Node: node, CheckID: id, PeerName: peer})
 //@ pure nodeAt(node string, peer string) *structs.Node = T_nodes(Query{Value: node, PeerName: peer})
@@ -773,12 +783,16 @@ package state
 
 //@ file config_entry.go
 
+// writing and deleting a config entry (graph validation, gateway-services, intention index maintenance) is NOT under
+// contract. ASSUMED frames only: which modelled tables they may write.
 //@ func ensureConfigEntryTxn
 //@ trusted
 //@ results rerr
+//@ modifies T.config-entries, T.index
 //@ func deleteConfigEntryTxn
 //@ trusted
 //@ results rerr
+//@ modifies T.config-entries, T.index
 
 //@ pure configAt(c structs.ConfigEntry) structs.ConfigEntry = T_config_entries(configentry.KindName{Kind: c.GetKind(), Name: c.GetName()})
 
